@@ -498,7 +498,9 @@ func (e *Engine) verifyFuncPass(fn *ssa.Function, fc *FuncContract, sweepProps [
 	if fc != nil {
 		untag := vc.withTag('R')
 		for _, c := range fc.Requires {
+			vc.tagName = c.Name
 			vc.assume(st, env.clause(c))
+			vc.tagName = ""
 		}
 		untag()
 		if w := fc.Flags["wired"]; w != "" {
@@ -637,7 +639,9 @@ func (vc *VC) exitObligations(fn *ssa.Function, fc *FuncContract, args, bind []V
 			} else {
 				g = cenv.clause(c)
 			}
+			vc.curHasUses, vc.curUses = c.HasUses, c.Uses
 			vc.oblige(res.st, "ensures", vc.oname(c.Name+suffix), vc.pos(fn.Pos()), "postcondition: "+c.Src, g, c.Props)
+			vc.curHasUses, vc.curUses = false, nil
 			// later postconditions may use earlier ones as lemmas (each is still proved on its own)
 			untag := vc.withTag('L')
 			vc.assume(res.st, g)
